@@ -101,7 +101,7 @@ CLAIMED = {
                 "(C09_members_spec, C09_registered_spec: converted -- or failed only in the final ExecStart store -- containers whose Pod= names this pod's file and that did not opt out), every container "
                 "precedes every pod in the run, and the service file name the pod's conversion returns is the one the table held from the start (C09_table_along_the_run: service names never change, container lists only "
                 "grow by registrations); C09_members_are_bound_to_their_pod -- a converted container naming Pod=p.pod has BindsTo=/After= that same service file name, --pod-id-file %t/<that name without .service>.pod-id, "
-                "and is registered unless StartWithPod is off; plus the handler-level facts C09_member, C09_errors, C09_members_wired and the repaired C09_slash_refuted.",
+                "and is registered unless StartWithPod is off; both also for the run over unit files merged with their drop-ins (C09_..._with_dropins over process_trees, C09_run_with_dropins_is; C09_dropin_membership_example: a container made a member by a drop-in is wanted by the pod); plus the handler-level facts C09_member, C09_errors, C09_members_wired and the repaired C09_slash_refuted.",
         "note": "Trusted: Coq kernel; the converter/process model, tied to /repo by whole-set differential runs on generated pod/container populations and the direct oracle on implementation output "
                 "(in-process and end to end). A container whose final ExecStart store fails after the pod look-up stays recorded (possible only with a NUL in an argument; stated in C09_registered_spec).",
         "technique": "machine-checked proof in Rocq (Coq 8.16): table-effect lemmas for all seven converters (errors carry a table only from the two with_tbl sites), invariants of the table along the run, "
@@ -113,7 +113,7 @@ CLAIMED = {
                 "the files kept and every non-pod unit of the subset converts, then every non-pod unit of the subset has exactly the same result -- service text and service file name -- in the run over the whole set; the added files may be valid, "
                 "fail conversion, or not load at all), by C10_convert_one_monotone (a successful conversion is unchanged under any name table that has more entries or longer container lists), table-effect lemmas for all seven converters in every "
                 "outcome, C10_sort_filter (the stable priority sort commutes with leaving units out) and C10_unloadable_files_change_nothing; C10_independence_example shows the premises are satisfiable; C10_added_files_change_nothing_pods extends the statement to pods (a pod keeps its service too unless one of the added units names it in Pod=; C10_pod_independence_example shows both sides); C10_priority_table ties the conversion order of the model to main.rs. Bookkeeping: C10_exit (exit status 1 exactly "
-                "when the error list is non-empty, 0 exactly when it is empty), C10_one_result_per_file, C10_each_unit_converted_once. PARTIAL beyond that: independence from "
+                "when the error list is non-empty, 0 exactly when it is empty), C10_one_result_per_file, C10_each_unit_converted_once. All of these also for the run over unit files merged with their drop-ins (process_trees: C10_*_with_dropins, where leaving a file out leaves its drop-ins out with it). PARTIAL beyond that: independence from "
                 "placements over search directories and from creation order, and that every failure is logged with the file's path, are decided by the metamorphic "
                 "end-to-end oracle (base set alone vs. base set + extras, service by service), together with the whole-set correspondence of the Process model used by C08/C09.",
         "note": "Trusted: Coq kernel; the process/output models; the logger (ERROR lines are matched by file name); a pod's service legitimately depends on member containers (excluded from the extras).",
